@@ -85,7 +85,8 @@ def to_py_dict(d, dictcls=dict):
 
 CLS = {"any": AnyNode, "node": Node, "user": UNode}
 AITER = {"identity": None, "sort": lambda attrs: sorted(attrs, key=lambda kv: kv[0]),
-         "dropk0": lambda attrs: [(k, v) for k, v in attrs if k != "k0"]}
+         "dropk0": lambda attrs: [(k, v) for k, v in attrs if k != "k0"],
+         "last": lambda attrs: list(attrs)[-1:]}
 CITER = {"list": list, "reversed": lambda cs: list(reversed(cs)), "droplast": lambda cs: list(cs)[:-1]}
 
 
@@ -107,8 +108,8 @@ def run_case(c):
         kw = {}
         if c["aiter"] != "identity":
             kw["attriter"] = AITER[c["aiter"]]
-        if c["citer"] != "list":
-            kw["childiter"] = CITER[c["citer"]]
+        if c["citer"] != "list" or c.get("lazy"):
+            kw["childiter"] = (lambda cs, _f=CITER[c["citer"]]: iter(_f(cs))) if c.get("lazy") else CITER[c["citer"]]
         ex = DictExporter(dictcls=dictcls, maxlevel=c["ml"], **kw)
         before = read_itree(root, True)
         if c.get("json"):
